@@ -18,6 +18,8 @@ enum Child {
     Param { textual: bool, defref: String, value: String, annotations: Vec<String> },
     Container { name: String, defref: String, index: Option<u64> },
     FibexRef { dest: EnumItem, target: String },
+    /// CAN-TP-CONNECTION without name, told apart by a float valued and an unsigned valued child
+    TpConn { timeout: f64, max_block: Option<u64> },
 }
 
 struct Built {
@@ -42,6 +44,10 @@ fn build(version: AutosarVersion, family: usize, children: &[Child], nested_perm
                 } else {
                     cont.create_sub_element(ElementName::SubContainers)?
                 }
+            }
+            5 => {
+                let elements = pkgs.create_named_sub_element(ElementName::ArPackage, "p")?.create_sub_element(ElementName::Elements)?;
+                elements.create_named_sub_element(ElementName::CanTpConfig, "t")?.create_sub_element(ElementName::TpConnections)?
             }
             _ => {
                 let elements = pkgs.create_named_sub_element(ElementName::ArPackage, "p")?.create_sub_element(ElementName::Elements)?;
@@ -81,6 +87,13 @@ fn build(version: AutosarVersion, family: usize, children: &[Child], nested_perm
                     let d = c.create_sub_element(ElementName::DefinitionRef)?;
                     d.set_attribute(AttributeName::Dest, CharacterData::Enum(EnumItem::EcucParamConfContainerDef))?;
                     d.set_character_data(defref.as_str())?;
+                }
+                Child::TpConn { timeout, max_block } => {
+                    let c = parent.create_sub_element(ElementName::CanTpConnection)?;
+                    if let Some(m) = max_block {
+                        c.create_sub_element(ElementName::MaxBlockSize)?.set_character_data(*m)?;
+                    }
+                    c.create_sub_element(ElementName::TimeoutBr)?.set_character_data(*timeout)?;
                 }
                 Child::FibexRef { dest, target } => {
                     let cond = parent.create_sub_element(ElementName::FibexElementRefConditional)?;
@@ -137,6 +150,10 @@ fn gen_children(rng: &mut Rng, family: usize) -> Vec<Child> {
                 defref: (*rng.pick(&defrefs)).to_string(),
                 index: if rng.chance(1, 2) { Some(rng.below(12) as u64) } else { None },
             },
+            5 => Child::TpConn {
+                timeout: *rng.pick(&[0.0, -0.0, 1.0, 2.0, 10.0, 0.5, -1.0, f64::NAN, f64::INFINITY, f64::NEG_INFINITY, 1e-310]),
+                max_block: if rng.chance(1, 2) { Some(*rng.pick(&[0u64, 2, 10, 9])) } else { None },
+            },
             _ => Child::FibexRef {
                 dest: *rng.pick(&[EnumItem::ISignal, EnumItem::EcuInstance, EnumItem::ISignalIPdu]),
                 target: format!("/p/{}", rng.pick(&NAMES)),
@@ -160,7 +177,7 @@ pub fn run(rep: &mut Report, tier: &str) {
         for j in 0..per {
             let case = (shard * per + j) as u64;
             let mut rng = Rng::derive(seed, "c14perm", case);
-            let family = rng.below(5);
+            let family = rng.below(6);
             let version = *rng.pick(&crate::specwalk::ALL_VERSIONS[8..]);
             let children = gen_children(&mut rng, family);
             let mut shuffled = children.clone();
@@ -196,7 +213,7 @@ pub fn run(rep: &mut Report, tier: &str) {
                 a.model.sort();
                 b.model.sort();
             });
-            let label = ["packages", "elements-mixed-kinds", "bsw-parameter-values", "bsw-sub-containers-index", "keyless-references"][family];
+            let label = ["packages", "elements-mixed-kinds", "bsw-parameter-values", "bsw-sub-containers-index", "keyless-references", "keyless-numeric-values"][family];
             let replay = || {
                 J::obj()
                     .with("engine", J::s("c14perm"))
@@ -251,6 +268,7 @@ pub fn run(rep: &mut Report, tier: &str) {
         }
     });
     rep.require("perm.cases", (cases / 2) as u64);
+    rep.require("perm.family.keyless-numeric-values", (cases / 20) as u64);
 }
 
 // ------------------------------------------------------------------------------------------------
